@@ -40,12 +40,18 @@ def write_project(root, targets, inside=False, loc="none", kind="semantic", extr
                 man += "  v0: ../v0\n"
         if d == "main":
             rel = "generated" if inside else "../out"
+            order = [t for t in ("cpp", "python", "json", "matlab") if t in targets]
             for t in sorted(targets):
+                if loc == "outdir_missing" and t == order[-1]:
+                    man += "%s:\n  %s: \"\"\n" % (t, OUT_KEYS[t])
+                    continue
                 man += "%s:\n  %s: %s/%s\n" % (t, OUT_KEYS[t], rel, t)
                 if t == "cpp":
                     man += "  generateCMakeLists: true\n"
             if loc == "manifest":
                 man += "bogusKey: 1\n"
+        if loc == "import_manifest" and d == "imp1":
+            man += "python:\n  outputDir: \"\"\n"
         model = spec["model"]
         if not uses:
             # importers do not reference anything of what they import
